@@ -234,6 +234,257 @@ func (g *gen) histKV() {
 	os.RemoveAll(dir)
 }
 
+
+// ---------------------------------------------------------------- data structures
+
+func (g *gen) idx(n int) int { return g.r.Intn(2*n+4) - n - 2 } // -n-2 .. n+1
+
+// unrecorded peeks at the real state, used only to pick interesting arguments
+func (g *gen) lsSize(t *hx.Tx, b, k string) (n int) {
+	defer func() { recover() }()
+	n, _ = t.T.LSize(b, []byte(k))
+	return n
+}
+
+func (g *gen) zCard(t *hx.Tx, b string) (n int) {
+	defer func() { recover() }()
+	n, _ = t.T.ZCard(b)
+	return n
+}
+
+var lsVals = []string{"a", "b", "", "x|y", "|", "a"}
+var stVals = []string{"a", "b", "", "m|n", "c"}
+
+// lsMut performs one random mutating list call.
+func (g *gen) lsMut(t *hx.Tx) {
+	b, k := pick(g.r, g.u.LsBuckets), pick(g.r, g.u.LsKeys)
+	n := g.lsSize(t, b, k)
+	switch g.r.Intn(12) {
+	case 0, 1, 2:
+		vs := [][]byte{[]byte(pick(g.r, lsVals))}
+		for g.r.Intn(3) == 0 {
+			vs = append(vs, []byte(pick(g.r, lsVals)))
+		}
+		t.RPush(b, k, vs...)
+	case 3, 4:
+		vs := [][]byte{[]byte(pick(g.r, lsVals))}
+		for g.r.Intn(3) == 0 {
+			vs = append(vs, []byte(pick(g.r, lsVals)))
+		}
+		t.LPush(b, k, vs...)
+	case 5:
+		t.LPop(b, k)
+	case 6:
+		t.RPop(b, k)
+	case 7, 8:
+		t.LRem(b, k, g.idx(n), []byte(pick(g.r, lsVals)))
+	case 9:
+		t.LSet(b, k, g.idx(n), []byte(pick(g.r, lsVals)))
+	default:
+		t.LTrim(b, k, g.idx(n), g.idx(n))
+	}
+}
+
+func (g *gen) lsReads(t *hx.Tx, full bool) {
+	for _, b := range g.u.LsBuckets {
+		for _, k := range g.u.LsKeys {
+			if !full && g.r.Intn(2) == 0 {
+				continue
+			}
+			n, _ := t.LSize(b, k)
+			t.LPeek(b, k)
+			t.RPeek(b, k)
+			t.LRange(b, k, 0, -1)
+			for i := 0; i < 2; i++ {
+				t.LRange(b, k, g.idx(n), g.idx(n))
+			}
+		}
+	}
+}
+
+func (g *gen) stMut(t *hx.Tx) {
+	b, k := pick(g.r, g.u.StBuckets), pick(g.r, g.u.StKeys)
+	items := func() [][]byte {
+		vs := [][]byte{[]byte(pick(g.r, stVals))}
+		for g.r.Intn(3) == 0 {
+			vs = append(vs, []byte(pick(g.r, stVals)))
+		}
+		return vs
+	}
+	switch g.r.Intn(10) {
+	case 0, 1, 2, 3:
+		t.SAdd(b, k, items()...)
+	case 4, 5:
+		t.SRem(b, k, items()...)
+	case 6:
+		t.SPop(b, k)
+	case 7, 8:
+		t.SMove(b, k, b, pick(g.r, g.u.StKeys), []byte(pick(g.r, stVals)), false)
+	default:
+		t.SMove(b, k, pick(g.r, g.u.StBuckets), pick(g.r, g.u.StKeys), []byte(pick(g.r, stVals)), true)
+	}
+}
+
+func (g *gen) stReads(t *hx.Tx, full bool) {
+	for _, b := range g.u.StBuckets {
+		for _, k := range g.u.StKeys {
+			if !full && g.r.Intn(2) == 0 {
+				continue
+			}
+			t.SMembers(b, k)
+			t.SCard(b, k)
+			t.SHasKey(b, k)
+			t.SIsMember(b, k, []byte(pick(g.r, stVals)))
+			t.SAreMembers(b, k, []byte(pick(g.r, stVals)), []byte(pick(g.r, stVals)))
+			k2 := pick(g.r, g.u.StKeys)
+			t.SDiff(b, k, b, k2, false)
+			t.SUnion(b, k, b, k2, false)
+			b2 := pick(g.r, g.u.StBuckets)
+			t.SDiff(b, k, b2, k2, true)
+			t.SUnion(b, k, b2, k2, true)
+		}
+	}
+}
+
+func (g *gen) zMut(t *hx.Tx) {
+	b := pick(g.r, g.u.ZsBuckets)
+	n := g.zCard(t, b)
+	switch g.r.Intn(10) {
+	case 0, 1, 2, 3, 4:
+		t.ZAdd(b, []byte(pick(g.r, zKeys)), float64(g.r.Intn(4)-1), []byte(pick(g.r, vals)))
+	case 5, 6:
+		t.ZRem(b, pick(g.r, zKeys))
+	case 7:
+		t.ZRemRangeByRank(b, g.idx(n), g.idx(n))
+	case 8:
+		t.ZPopMax(b)
+	default:
+		t.ZPopMin(b)
+	}
+}
+
+func (g *gen) zReads(t *hx.Tx, full bool) {
+	for _, b := range g.u.ZsBuckets {
+		if !full && g.r.Intn(2) == 0 {
+			continue
+		}
+		n, _ := t.ZCard(b)
+		t.ZMembers(b)
+		t.ZPeekMin(b)
+		t.ZPeekMax(b)
+		for i := 0; i < 3; i++ {
+			t.ZRangeByScore(b, g.r.Intn(6)-3, g.r.Intn(6)-3, g.r.Intn(3) == 0, g.r.Intn(3) == 0, g.r.Intn(3))
+		}
+		t.ZCount(b, g.r.Intn(6)-3, g.r.Intn(6)-3, g.r.Intn(3) == 0, g.r.Intn(3) == 0, g.r.Intn(3))
+		t.ZRangeByRank(b, 1, -1)
+		for i := 0; i < 2; i++ {
+			t.ZRangeByRank(b, g.idx(n), g.idx(n))
+		}
+		for _, k := range zKeys {
+			if full || g.r.Intn(2) == 0 {
+				t.ZRank(b, []byte(k))
+				t.ZRevRank(b, []byte(k))
+				t.ZScore(b, []byte(k))
+				t.ZGetByKey(b, []byte(k))
+			}
+		}
+	}
+}
+
+// dsUniverse is the universe of the data-structure families.
+func dsUniverse(kv bool) *hx.Universe {
+	u := &hx.Universe{LsBuckets: []string{"l1", "l2"}, StBuckets: []string{"s1", "s2"}, ZsBuckets: []string{"z1", "z2"},
+		LsKeys: lsKeys, StKeys: stKeys}
+	if kv {
+		u.KvBuckets = []string{"b1", "b2"}
+	}
+	return u
+}
+
+func (g *gen) start(mode nutsdb.EntryIdxMode, rw nutsdb.RWMode, seg int64) string {
+	dir := fmt.Sprintf("%s/db-%d", g.c.Tmp, g.hist)
+	os.RemoveAll(dir)
+	g.newSess(dir, mode, rw, seg)
+	g.s.R.Emit(hx.Ev{"op": "reset", "mode": int(mode), "rw": int(rw), "seg": seg, "hist": g.hist,
+		"sync": g.s.Opt.SyncEnable, "load": int(g.s.Opt.StartFileLoadingMode), "family": g.c.Family})
+	if err := g.s.OpenFirst(); err != nil {
+		fmt.Fprintln(os.Stderr, "harness: first open failed:", err)
+		os.Exit(2)
+	}
+	return dir
+}
+
+// histDS: one history over one structure kind ("list", "set", "zset") or all
+// ("mixed"); one mutating call per transaction (the sequence semantics of
+// C05-C07), every read API in a following read-only transaction.
+func (g *gen) histDS(kind string) {
+	g.u = dsUniverse(kind == "mixed")
+	dir := g.start(nutsdb.HintKeyValAndRAMIdxMode, rwOf(g.c.RW, g.r), int64(256+g.r.Intn(4)*256))
+	for i := 0; i < g.c.Steps; i++ {
+		k := kind
+		if kind == "mixed" {
+			k = pick(g.r, []string{"list", "set", "zset", "kv"})
+		}
+		nops := 1
+		if kind == "mixed" && g.r.Intn(3) == 0 {
+			nops = 1 + g.r.Intn(3)
+		}
+		g.update(func(t *hx.Tx) {
+			for j := 0; j < nops; j++ {
+				switch k {
+				case "list":
+					g.lsMut(t)
+				case "set":
+					g.stMut(t)
+				case "zset":
+					g.zMut(t)
+				case "kv":
+					g.kvWrite(t)
+				}
+				if kind == "mixed" {
+					k = pick(g.r, []string{"list", "set", "zset", "kv"})
+				}
+			}
+		})
+		g.view(func(t *hx.Tx) {
+			full := g.r.Intn(5) == 0
+			if kind == "list" || kind == "mixed" {
+				g.lsReads(t, full)
+			}
+			if kind == "set" || kind == "mixed" {
+				g.stReads(t, full)
+			}
+			if kind == "zset" || kind == "mixed" {
+				g.zReads(t, full)
+			}
+			if kind == "mixed" {
+				g.kvReads(t, pick(g.r, g.u.KvBuckets), false)
+			}
+		})
+		if g.r.Intn(5) == 0 {
+			g.s.Obs()
+		}
+		if g.r.Intn(10) == 0 {
+			g.s.Shadow(dir + "-shadow")
+		}
+		if g.r.Intn(15) == 0 {
+			g.s.Close()
+			if g.s.Open() != nil {
+				return
+			}
+			g.s.Obs()
+		}
+	}
+	g.s.Obs()
+	g.s.Close()
+	if g.s.Open() != nil {
+		return
+	}
+	g.s.Obs()
+	g.s.Close()
+	os.RemoveAll(dir)
+}
+
 func main() {
 	var c cfg
 	flag.StringVar(&c.Family, "family", "kv", "driver family")
@@ -259,6 +510,8 @@ func main() {
 		switch c.Family {
 		case "kv":
 			g.histKV()
+		case "list", "set", "zset", "mixed":
+			g.histDS(c.Family)
 		default:
 			fmt.Fprintln(os.Stderr, "harness: unknown family", c.Family)
 			os.Exit(2)
